@@ -8,28 +8,28 @@ Import ListNotations.
 (* validate returns silently exactly when the value conforms to the schema — relative to the contract that jsonschema
    raises ValidationError exactly on non-conforming values (the contract itself is decided by correspondence part (i)) *)
 Theorem C20_validate_silent_iff_conforms
-  (rxm : N -> str -> bool) (js : json -> schema -> js_result)
-  (js_iff : forall v s, js v s = JsOk <-> conforms rxm s v = true) v s :
-  validate js v s = Silent <-> conforms rxm s v = true.
-Proof. exact (validate_silent_iff_conforms rxm js js_iff v s). Qed.
+  (rxm : N -> str -> bool) (pm : list str -> str -> bool) (js : json -> schema -> js_result)
+  (js_iff : forall v s, js v s = JsOk <-> conforms rxm pm s v = true) v s :
+  validate js v s = Silent <-> conforms rxm pm s v = true.
+Proof. exact (validate_silent_iff_conforms rxm pm js js_iff v s). Qed.
 Print Assumptions C20_validate_silent_iff_conforms.
 
 (* ... and otherwise raises one of the library's own error classes (never a raw exception) with a non-empty message,
    for every value and every schema, given that the raised record is well-formed (wf_verr) *)
 Theorem C20_validate_raises_lib_only
-  (rxm : N -> str -> bool) (js : json -> schema -> js_result)
-  (js_iff : forall v s, js v s = JsOk <-> conforms rxm s v = true)
-  (js_wf : forall v s e, js v s = JsError e -> wf_verr e = true) v s :
-  (validate js v s = Silent /\ conforms rxm s v = true) \/
-  (exists le, validate js v s = Raises (Lib le) /\ msg_nonempty (err_msg le) = true /\ conforms rxm s v = false).
-Proof. exact (validate_raises_lib_only rxm js js_iff js_wf v s). Qed.
+  (rxm : N -> str -> bool) (pm : list str -> str -> bool) (js : json -> schema -> js_result)
+  (js_iff : forall v s, js v s = JsOk <-> conforms rxm pm s v = true)
+  (js_wf : forall v s e, js v s = JsError e -> wf_verr pm e = true) v s :
+  (validate js v s = Silent /\ conforms rxm pm s v = true) \/
+  (exists le, validate js v s = Raises (Lib le) /\ msg_nonempty (err_msg le) = true /\ conforms rxm pm s v = false).
+Proof. exact (validate_raises_lib_only rxm pm js js_iff js_wf v s). Qed.
 Print Assumptions C20_validate_raises_lib_only.
 
 (* process_error terminates on every record (structural recursion through oneOf / anyOf contexts of any depth and
    width) and maps every well-formed record to a library error with a non-empty message *)
-Theorem C20_process_error_total_lib e :
-  wf_verr e = true -> exists le, process_error e = Lib le /\ msg_nonempty (err_msg le) = true.
-Proof. exact (process_error_total_lib e). Qed.
+Theorem C20_process_error_total_lib pm e :
+  wf_verr pm e = true -> exists le, process_error e = Lib le /\ msg_nonempty (err_msg le) = true.
+Proof. exact (process_error_total_lib pm e). Qed.
 Print Assumptions C20_process_error_total_lib.
 
 (* whatever the record (well-formed or not), a library error produced by process_error has a non-empty message *)
@@ -38,24 +38,24 @@ Proof. exact (process_error_msg_nonempty e le). Qed.
 Print Assumptions C20_message_nonempty.
 
 (* a `required` error is translated to MissingJsonKeyError exposing a key that is required and absent from the instance *)
-Theorem C20_required_exposes_key e :
-  wf_verr e = true -> v_kind e = VRequired ->
+Theorem C20_required_exposes_key pm e :
+  wf_verr pm e = true -> v_kind e = VRequired ->
   exists k kvs ks m,
     v_inst e = JObj kvs /\ v_value e = JArr ks /\
     process_error e = Lib (EMissingKey (Some (JStr k)) m) /\
     In (JStr k) ks /\ ~ In k (keys kvs).
-Proof. exact (required_exposes_key e). Qed.
+Proof. exact (required_exposes_key pm e). Qed.
 Print Assumptions C20_required_exposes_key.
 
 (* a `type` error is translated to InvalidTypeError exposing the offending value and the schema's type declaration
    (expected_type = str(t)), and the value indeed has none of the declared types *)
-Theorem C20_type_exposes_value_and_type e :
-  wf_verr e = true -> v_kind e = VType ->
+Theorem C20_type_exposes_value_and_type pm e :
+  wf_verr pm e = true -> v_kind e = VType ->
   exists t ts m,
     v_sty e = Some t /\ type_decl t = Some ts /\
     process_error e = Lib (EInvalidType (v_inst e) t m) /\
     existsb (has_type (v_inst e)) ts = false.
-Proof. exact (type_exposes_value_and_type e). Qed.
+Proof. exact (type_exposes_value_and_type pm e). Qed.
 Print Assumptions C20_type_exposes_value_and_type.
 
 (* the regular expression of process_error, run on the message jsonschema builds from identifier-like keys, returns
@@ -65,52 +65,125 @@ Proof. exact (findall_addl_message ks). Qed.
 Print Assumptions C20_findall_addl_message.
 
 (* FULL STATEMENT (not proved in full): for every additionalProperties:false error whose unknown keys are all
-   identifier-like, InvalidKeyError.invalid_key is one of the unknown keys.
-   PROVED PART: schemas without patternProperties (v_spat e = false) and ASCII identifier-like keys [A-Za-z0-9_]+ ; then
-   invalid_key is the smallest unknown key, is a key of the instance and is not a declared property.
-   MISSING: the message format jsonschema uses with patternProperties ("… do/does not match any of the regexes: …") and
-   non-ASCII word characters (Python's \w is Unicode); both are decided by the searcher's oracle only. *)
-Theorem C20_additional_exposes_key_partial e :
-  wf_verr e = true -> v_kind e = VAdditional -> v_spat e = false ->
+   identifier-like (Python's \w+, which is Unicode), InvalidKeyError.invalid_key is one of the unknown keys.
+   PROVED (the two theorems below): the statement for ASCII identifier-like keys [A-Za-z0-9_]+, for schemas without
+   (first theorem) and with or without (second theorem) patternProperties, whatever the patterns are.
+   MISSING: non-ASCII word characters only (Python's \w is Unicode; the model's wordchar is ASCII); they are decided by
+   the searcher's oracle only.
+
+   Unknown keys = instance keys that are neither declared properties nor matched by the joined patterns
+   (jsonschema._utils.find_additional_properties; pm is the regular-expression oracle; extras_pat).  jsonschema lists
+   them sorted; with patternProperties its message is  "'a', 'b' do not match any of the regexes: 'p1', 'p2'", and the
+   regular expression u?'(\w+)',? of process_error returns the keys FOLLOWED by whatever quoted words the pattern part
+   contains (C20_findall_addl_message_pat: exactly the identifier-like patterns, when the patterns have plain reprs). *)
+Theorem C20_additional_exposes_key_partial pm e :
+  wf_verr pm e = true -> v_kind e = VAdditional -> v_spat e = false ->
   forallb ident (extras_of (v_inst e) (v_sprops e)) = true ->
   exists k kvs m,
     v_inst e = JObj kvs /\
     process_error e = Lib (EInvalidKey (Some k) m) /\
     In k (keys kvs) /\ ~ In k (v_sprops e) /\ ident k = true /\
     hd_error (sort_strs (extras_of (v_inst e) (v_sprops e))) = Some k.
-Proof. exact (additional_exposes_key_partial e). Qed.
+Proof. exact (additional_exposes_key_partial pm e). Qed.
 Print Assumptions C20_additional_exposes_key_partial.
 
+(* with or without patternProperties, whatever the patterns: invalid_key is the smallest unknown key - a key of the
+   instance that is not a declared property and that the patterns do not match; the regular expression returns the
+   sorted unknown keys first (and nothing else when the schema has no patternProperties).
+   The premise wf_verr contains "there is an unknown key": jsonschema yields this error only `elif not aP and extras`,
+   so a raised error always has one; see C20_additional_no_unknown_key_* for records without. *)
+Theorem C20_additional_exposes_key_patterns_partial pm e :
+  wf_verr pm e = true -> v_kind e = VAdditional ->
+  forallb ident (extras_pat pm (v_inst e) (v_sprops e) (v_spats e)) = true ->
+  exists k kvs m rest,
+    v_inst e = JObj kvs /\
+    process_error e = Lib (EInvalidKey (Some k) m) /\
+    In k (keys kvs) /\ ~ In k (v_sprops e) /\ pat_matched pm (v_spats e) k = false /\ ident k = true /\
+    hd_error (sort_strs (extras_pat pm (v_inst e) (v_sprops e) (v_spats e))) = Some k /\
+    findall_keys (v_message e) = sort_strs (extras_pat pm (v_inst e) (v_sprops e) (v_spats e)) ++ rest /\
+    (v_spat e = false -> rest = []).
+Proof. exact (additional_exposes_key_patterns pm e). Qed.
+Print Assumptions C20_additional_exposes_key_patterns_partial.
+
+(* the whole list the regular expression returns on the patternProperties message, for every list of identifier-like
+   keys (empty included) and every list of patterns with plain reprs (printable ASCII, no single quote, no backslash):
+   the keys, then exactly the identifier-like patterns (e.g. `abc`, `_`) *)
+Theorem C20_findall_addl_message_pat ks pats :
+  forallb ident ks = true -> forallb plain_pat pats = true ->
+  exists m, addl_message_pat ks pats = Some m /\ findall_keys m = ks ++ filter ident pats.
+Proof. exact (findall_addl_message_pat ks pats). Qed.
+Print Assumptions C20_findall_addl_message_pat.
+
+(* a record WITHOUT unknown key (never raised by jsonschema; outside wf_verr) with the patternProperties message
+   exposes a PATTERN: the first identifier-like one in sorted order - or None when there is none *)
+Theorem C20_additional_no_unknown_key_general vv inst sty sp pts path ctx m :
+  is_false vv = true -> forallb plain_pat pts = true -> addl_message_pat [] pts = Some m ->
+  process_error (VErr VAdditional vv inst sty sp true pts path m ctx) =
+  Lib (EInvalidKey (hd_error (filter ident pts)) m_unknown_keys).
+Proof. exact (additional_no_unknown_key_general vv inst sty sp pts path ctx m). Qed.
+Print Assumptions C20_additional_no_unknown_key_general.
+
+(* ... concretely: instance {"abc1": null}, patternProperties {"abc": ...}: no unknown key, invalid_key = "abc" (a
+   pattern, not a key of the instance); the record is not well-formed *)
+Theorem C20_additional_no_unknown_key_exposes_pattern :
+  let pm := fun _ _ => true in
+  v_kind no_unknown_key_error = VAdditional /\
+  extras_pat pm (v_inst no_unknown_key_error) (v_sprops no_unknown_key_error) (v_spats no_unknown_key_error) = [] /\
+  addl_message_pat [] (v_spats no_unknown_key_error) = Some (v_message no_unknown_key_error) /\
+  process_error no_unknown_key_error = Lib (EInvalidKey (Some (codes "abc"%string)) m_unknown_keys) /\
+  In (codes "abc"%string) (v_spats no_unknown_key_error) /\
+  wf_verr pm no_unknown_key_error = false.
+Proof. exact additional_no_unknown_key_exposes_pattern. Qed.
+Print Assumptions C20_additional_no_unknown_key_exposes_pattern.
+
 (* the contract on jsonschema is satisfiable (so the two validate theorems are not vacuous) *)
-Theorem C20_contract_satisfiable rxm :
-  (forall v s, js_trivial rxm v s = JsOk <-> conforms rxm s v = true) /\
-  (forall v s e, js_trivial rxm v s = JsError e -> wf_verr e = true).
-Proof. exact (js_trivial_contract rxm). Qed.
+Theorem C20_contract_satisfiable rxm pm :
+  (forall v s, js_trivial rxm pm v s = JsOk <-> conforms rxm pm s v = true) /\
+  (forall v s e, js_trivial rxm pm v s = JsError e -> wf_verr pm e = true).
+Proof. exact (js_trivial_contract rxm pm). Qed.
 Print Assumptions C20_contract_satisfiable.
 
 (* REFUTED without the well-formedness premise: jsonschema's draft-3 `required: true` raises a record whose
    validator_value is a boolean; process_error iterates it and a TypeError escapes.
    Witness on the code: validate({}, {"$schema": "http://json-schema.org/draft-03/schema#", "properties": {"a": {"required": true}}}) *)
 Theorem C20_process_error_total_refuted :
-  exists e, v_kind e = VRequired /\ v_value e = JBool true /\ process_error e = Raw RTypeError /\ wf_verr e = false.
+  exists e, v_kind e = VRequired /\ v_value e = JBool true /\ process_error e = Raw RTypeError /\
+            forall pm, wf_verr pm e = false.
 Proof. exact process_error_total_refuted. Qed.
 Print Assumptions C20_process_error_total_refuted.
 
 (* non-vacuity: an anyOf error two levels deep whose first branch is a `required` failure; an unknown-key error with two
-   identifier-like keys (one of them "u", the optional prefix of the regular expression); a value / schema pair *)
+   identifier-like keys (one of them "u", the optional prefix of the regular expression); the same with
+   patternProperties {"^x", "_", "abc"}: two keys are allowed by a pattern, the unknown ones are b and u, and the regular
+   expression returns b, u and then the identifier-like patterns _ and abc; a value / schema pair with patternProperties *)
 Local Open Scope string_scope.
 Example C20_example :
   let k s := codes s in
-  let req := VErr VRequired (JArr [JStr (k "a"); JStr (k "b")]) (JObj [(k "a", JInt 1)]) None [] false [] [] [] in
-  let any2 := VErr VAnyOf (JArr []) JNull None [] false [] []
-                [VErr VOneOf (JArr []) JNull None [] false [] [] [req]; req] in
-  let addl := VErr VAdditional (JBool false) (JObj [(k "u", JNull); (k "p", JNull); (k "key_1", JNull)]) None [k "p"] false []
+  let pm := fun (_ : list str) (key : str) =>
+              (match key with c :: _ => N.eqb c 120 | [] => false end || existsb (N.eqb 95) key)%bool in
+  let req := VErr VRequired (JArr [JStr (k "a"); JStr (k "b")]) (JObj [(k "a", JInt 1)]) None [] false [] [] [] [] in
+  let any2 := VErr VAnyOf (JArr []) JNull None [] false [] [] []
+                [VErr VOneOf (JArr []) JNull None [] false [] [] [] [req]; req] in
+  let addl := VErr VAdditional (JBool false) (JObj [(k "u", JNull); (k "p", JNull); (k "key_1", JNull)]) None [k "p"] false [] []
                 (addl_message [k "key_1"; k "u"]) [] in
-  wf_verr any2 = true /\
+  let pats := [k "^x"; k "_"; k "abc"] in
+  let addlp := VErr VAdditional (JBool false)
+                 (JObj [(k "x1", JNull); (k "u", JNull); (k "p", JNull); (k "key_1", JNull); (k "b", JNull)]) None [k "p"] true pats []
+                 (k "'b', 'u' do not match any of the regexes: '^x', '_', 'abc'") [] in
+  wf_verr pm any2 = true /\
   process_error any2 = Lib (EMissingKey (Some (JStr (k "b"))) m_missing) /\
-  wf_verr addl = true /\
+  wf_verr pm addl = true /\
   process_error addl = Lib (EInvalidKey (Some (k "key_1")) m_unknown_keys) /\
-  conforms (fun _ _ => true) (SAnd [SType [TObject]; SRequired [k "a"]; SProps [(k "a", SType [TInteger])] (Some (SBool false))])
-           (JObj [(k "a", JFloat (2#1))]) = true /\
-  conforms (fun _ _ => true) (SOneOf [SType [TInteger]; SMin (1#2)]) (JInt 1) = false.
+  wf_verr pm addlp = true /\
+  extras_pat pm (v_inst addlp) (v_sprops addlp) (v_spats addlp) = [k "u"; k "b"] /\
+  addl_message_pat [k "b"; k "u"] pats = Some (v_message addlp) /\
+  findall_keys (v_message addlp) = [k "b"; k "u"; k "_"; k "abc"] /\
+  process_error addlp = Lib (EInvalidKey (Some (k "b")) m_unknown_keys) /\
+  conforms (fun _ _ => true) pm
+           (SAnd [SType [TObject]; SRequired [k "a"]; SProps [(k "a", SType [TInteger])] [(k "^x", SType [TString])] (Some (SBool false))])
+           (JObj [(k "a", JFloat (2#1)); (k "x1", JStr (k "s"))]) = true /\
+  conforms (fun _ _ => true) pm
+           (SProps [(k "a", SType [TInteger])] [(k "^x", SType [TString])] (Some (SBool false)))
+           (JObj [(k "x1", JStr (k "s")); (k "b", JNull)]) = false /\
+  conforms (fun _ _ => true) pm (SOneOf [SType [TInteger]; SMin (1#2)]) (JInt 1) = false.
 Proof. vm_compute. repeat split; reflexivity. Qed.
